@@ -456,6 +456,20 @@ static string opRename(const vector<string>& a)
 }
 
 
+static InclParam mkParam(unsigned w)
+{
+	InclParam ip;
+	ip.SetAlgorithm((w & 1) ? InclParam::e_algorithm::congruences : InclParam::e_algorithm::antichains);
+	ip.SetDirection((w & 2) ? InclParam::e_direction::downward : InclParam::e_direction::upward);
+	ip.SetUseDownwardCacheImpl(w & 4);
+	ip.SetUseRecursion(w & 8);
+	ip.SetUseSimulation(w & 16);
+	ip.SetSearchOrder((w & 32) ? InclParam::e_search_order::breadth : InclParam::e_search_order::depth);
+	ip.SetEquivalence(w & 64);
+	return ip;
+}
+
+
 // ---------------------------------------------------------------- word automata (histories)
 using FA = ExplicitFiniteAut;
 
@@ -583,6 +597,20 @@ static string opNfaHist(const vector<string>& steps)
 			string v;
 			for (int alg = 0; alg < 4; ++alg) v += forked([&]() { return faInclOne(a, b, alg); }, 5);
 			out << " v" << k << "=" << v;
+		}
+		else if (op == "inclall") {
+			// all 128 option words; words with the simulation bit are not driven ('-': the library cannot compute an NFA simulation)
+			FA& a = ent(1); FA& b = ent(2);
+			string v;
+			for (unsigned w = 0; w < 128; ++w) {
+				if (w & 16) { v += '-'; continue; }
+				v += forked([&]() -> char {
+					try { return FA::CheckInclusion(a, b, mkParam(w)) ? '1' : '0'; }
+					catch (const NotImplementedException&) { return 'N'; }
+					catch (const std::exception&) { return 'E'; }
+				}, 5);
+			}
+			out << " w" << k << "=" << v;
 		}
 		else if (op == "add") { vector<string> t = split(f.at(2), ','); ent(1).AddTransition(toN(t.at(0)), toN(t.at(1)), toN(t.at(2))); }
 		else if (op == "final") { ent(1).SetStateFinal(toN(f.at(2))); }
@@ -888,19 +916,6 @@ static string dumpBdd(const Aut& a)
 	bool first = true;
 	for (size_t q : fs) { if (!first) os << ","; os << q; first = false; }
 	return os.str();
-}
-
-static InclParam mkParam(unsigned w)
-{
-	InclParam ip;
-	ip.SetAlgorithm((w & 1) ? InclParam::e_algorithm::congruences : InclParam::e_algorithm::antichains);
-	ip.SetDirection((w & 2) ? InclParam::e_direction::downward : InclParam::e_direction::upward);
-	ip.SetUseDownwardCacheImpl(w & 4);
-	ip.SetUseRecursion(w & 8);
-	ip.SetUseSimulation(w & 16);
-	ip.SetSearchOrder((w & 32) ? InclParam::e_search_order::breadth : InclParam::e_search_order::depth);
-	ip.SetEquivalence(w & 64);
-	return ip;
 }
 
 template <class F>
